@@ -121,21 +121,25 @@ impl Felt {
                 kani::assume(out == e);
                 return e;
             }
+            if verif_uf::cheap_mul() {
+                return out;
+            }
+            // The remaining exact cases constrain `out` (the UF row's value) instead of returning a
+            // separately computed value: two multiplications of the same operands are then equal
+            // by functional consistency alone, and the solver never has to prove two copies of
+            // the shift / double-and-add circuits equivalent.
             // 2^k * v without wrap-around: a shift (the operands are ordered, test both)
             if fc::is_pow2(&x.0) && fc::bit_len(&y.0) + fc::trailing_zeros(&x.0) <= 251 {
-                let e = Felt(fc::shl(&y.0, fc::trailing_zeros(&x.0)));
-                kani::assume(out == e);
-                return e;
+                kani::assume(out == Felt(fc::shl(&y.0, fc::trailing_zeros(&x.0))));
+                return out;
             }
             if fc::is_pow2(&y.0) && fc::bit_len(&x.0) + fc::trailing_zeros(&y.0) <= 251 {
-                let e = Felt(fc::shl(&x.0, fc::trailing_zeros(&y.0)));
-                kani::assume(out == e);
-                return e;
+                kani::assume(out == Felt(fc::shl(&x.0, fc::trailing_zeros(&y.0))));
+                return out;
             }
             if fc::fits64(&x.0) && x.0[0] < (1 << 16) {
-                let e = Felt(fc::mul_small(x.0[0], 16, &y.0));
-                kani::assume(out == e);
-                return e;
+                kani::assume(out == Felt(fc::mul_small(x.0[0], 16, &y.0)));
+                return out;
             }
             out
         }
